@@ -5,7 +5,7 @@ import CpModel.Gen.C07Tables
 /-!
   Driver for C07 (parse sites / catch map).  One case per line:
 
-    ranges <text> <len>          -> `ok|err:<Class> st:<status>`      (`_get_ranges`, then the /file site)
+    ranges <text> <len>          -> `ok|err:<Class> st:<status> <N|-|a:b,..>` (`_get_ranges`, the /file site, public `get_ranges`)
     qs <text>                    -> `ok|err:<Class> st:<status>`      (`parse_query_string`, then the request)
     urlenc <hex> <codec|->       -> `st:<status>`                     (`process_urlencoded`)
     multipart <text> <hex> <0|1> -> `st:<status>`                     (`process_multipart` on multipart/mixed)
@@ -20,6 +20,8 @@ import CpModel.Gen.C07Tables
     respenc <0|1> <text>         -> `ok <hex>` | `err:ValueError`     (`HeaderMap.encode_header_item`)
     bflow <p><s><b><a><c><w> <-|Class> -> status                     (`basic_auth`)
     unq <hex>                    -> hex                               (`_cpreqbody.unquote_plus`)
+    limit <maxbytes> <declared|N> <arrived> -> `st:<status>`          (`SizedReader` size limit)
+    host <p11 0|1> <hasHost 0|1> -> `st:<status>`                     (Host rule of `process_headers`)
     respcls <text>               -> class of a response header value
     trailers <hex,hex,..|_>      -> `ok` | `http:400` | `err:<Class>`  (`SizedReader.finish` over the trailer lines)
     bind <bound> <args> <ndefaults> <va><vk> <npos> <kwargs> -> `<0|1> <http:code|reraise> <status>`
@@ -186,13 +188,28 @@ def step (line : String) : String :=
     match Proto.unhex? h with
     | some b => Proto.hex (unquotePlusBytes b)
     | none => "bad-op"
+  | ["limit", m, d, a] =>
+    match m.toNat?, Proto.optNat? d, a.toNat? with
+    | some mb, some dl, some ar => st .rfileRead (sizedRead mb dl ar)
+    | _, _, _ => "bad-op"
+  | ["host", p, h] =>
+    match bit? (p.toList.headD 'x'), bit? (h.toList.headD 'x') with
+    | some p11, some hh => st .cookieLoad (hostRule p11 hh)
+    | _, _ => "bad-op"
   | ["respcls", t] =>
     match Proto.untext? t with
     | some l => reprStr (respClsOf l)
     | none => "bad-op"
   | ["ranges", t, n] =>
     match Proto.untext? t, n.toNat? with
-    | some hv, some len => let r := getRangesRaw hv len; s!"{showRaw r} {st .getRanges r}"
+    | some hv, some len =>
+      let r := getRangesRaw hv len
+      -- the public `get_ranges`: an empty header or a ValueError is "no Range header"
+      let pub : String := if hv.isEmpty then "N" else match r with
+        | .ok (some []) => "-"
+        | .ok (some l) => ",".intercalate (l.map fun p => s!"{p.1}:{p.2}")
+        | _ => "N"
+      s!"{showRaw r} {st .getRanges r} {pub}"
     | _, _ => "bad-op"
   | ["qs", t] =>
     match Proto.untext? t with
